@@ -1029,7 +1029,7 @@ package server
 
 //@ func (*Aof).GetLockCommandExpriedTime
 //@   requires lockDb != nil && aofLock != nil
-//@   ensures C07.life.restore,C16.life.restore: implies(aofLock.CommandTime < 0x10000000000 && lockDb.currentTime >= 0 && lockDb.currentTime < 0x10000000000 && lockDb.currentTime - aofLock.CommandTime <= ite(aofLock.ExpriedFlag&0x0040 != 0, 0xffff * 60, 0xffff), result == restoredLife(aofLock.ExpriedFlag, aofLock.ExpriedTime, lockDb.currentTime - aofLock.CommandTime))
+//@   ensures C07.life.restore,C16.life.restore,C09.life.restore: implies(aofLock.CommandTime < 0x10000000000 && lockDb.currentTime >= 0 && lockDb.currentTime < 0x10000000000 && lockDb.currentTime - aofLock.CommandTime <= ite(aofLock.ExpriedFlag&0x0040 != 0, 0xffff * 60, 0xffff), result == restoredLife(aofLock.ExpriedFlag, aofLock.ExpriedTime, lockDb.currentTime - aofLock.CommandTime))
 //@   modifies nothing
 
 // the property-level statement over the two specifications: for a hold with deadline e persisted at t0 <= e
@@ -1216,4 +1216,17 @@ package server
 //@ func (*LockDB).checkMillisecondExpried
 //@   requires self != nil
 //@   loop#2 backedge C06.ms.handover: implies(nodeQueues[j] != nil, !lock.expried && lock.command.Expried < MILLISECOND_QUEUE_LENGTH)
+//@   modifies all
+
+// the command a restart (HandleLoad) or a follower (HandleReplay) hands to the lock engine carries exactly the
+// record's terms, marked as coming from the log, with the lifetime still left now (C07 specification)
+//@ func (*AofChannel).HandleLoad
+//@   requires self != nil && aofLock != nil && self.lockDb != nil
+//@   at call ProcessLockCommand assert C07.load.terms: arg1.CommandType == aofLock.CommandType && arg1.DbId == aofLock.DbId && arg1.LockId == aofLock.LockId && arg1.LockKey == aofLock.LockKey && arg1.Count == aofLock.Count && arg1.Rcount == aofLock.Rcount && arg1.ExpriedFlag == aofLock.ExpriedFlag && arg1.Timeout == 0 && arg1.Flag&protocol.LOCK_FLAG_FROM_AOF != 0 && (arg1.Flag&protocol.LOCK_FLAG_CONTAINS_DATA != 0) == (aofLock.AofFlag&0x2000 != 0 || aofLock.Flag&protocol.LOCK_FLAG_CONTAINS_DATA != 0) && (arg1.TimeoutFlag&protocol.TIMEOUT_FLAG_REQUIRE_ACKED != 0) == (aofLock.AofFlag&0x1000 != 0) && (arg1.TimeoutFlag&protocol.TIMEOUT_FLAG_RCOUNT_IS_PRIORITY != 0) == (aofLock.AofFlag&0x0010 != 0)
+//@   at call ProcessLockCommand assert C07.load.lifetime: implies(aofLock.CommandTime < 0x10000000000 && self.lockDb.currentTime >= 0 && self.lockDb.currentTime < 0x10000000000 && self.lockDb.currentTime - aofLock.CommandTime <= ite(aofLock.ExpriedFlag&0x0040 != 0, 0xffff * 60, 0xffff), arg1.Expried == restoredLife(aofLock.ExpriedFlag, aofLock.ExpriedTime, self.lockDb.currentTime - aofLock.CommandTime))
+//@   modifies all
+//@ func (*AofChannel).HandleReplay
+//@   requires self != nil && aofLock != nil && self.lockDb != nil
+//@   at call ProcessLockCommand assert C09.replay.terms: arg1.CommandType == aofLock.CommandType && arg1.DbId == aofLock.DbId && arg1.LockId == aofLock.LockId && arg1.LockKey == aofLock.LockKey && arg1.Count == aofLock.Count && arg1.Rcount == aofLock.Rcount && arg1.ExpriedFlag == aofLock.ExpriedFlag && arg1.Timeout == 0 && arg1.Flag&protocol.LOCK_FLAG_FROM_AOF != 0 && (arg1.Flag&protocol.LOCK_FLAG_CONTAINS_DATA != 0) == (aofLock.AofFlag&0x2000 != 0 || aofLock.Flag&protocol.LOCK_FLAG_CONTAINS_DATA != 0) && (arg1.TimeoutFlag&protocol.TIMEOUT_FLAG_REQUIRE_ACKED != 0) == (aofLock.AofFlag&0x1000 != 0) && (arg1.TimeoutFlag&protocol.TIMEOUT_FLAG_RCOUNT_IS_PRIORITY != 0) == (aofLock.AofFlag&0x0010 != 0)
+//@   at call ProcessLockCommand assert C09.replay.lifetime: implies(aofLock.CommandTime < 0x10000000000 && self.lockDb.currentTime >= 0 && self.lockDb.currentTime < 0x10000000000 && self.lockDb.currentTime - aofLock.CommandTime <= ite(aofLock.ExpriedFlag&0x0040 != 0, 0xffff * 60, 0xffff), arg1.Expried == restoredLife(aofLock.ExpriedFlag, aofLock.ExpriedTime, self.lockDb.currentTime - aofLock.CommandTime))
 //@   modifies all
